@@ -29,9 +29,11 @@ META = dict(
          'damaged; info-only stream scan takes each message by its declared total length.',
     technique='Lean 4 theorems (string functions on List Char, induction over parameter lists, prefix-determined readers) + checked '
               'model/implementation correspondence + oracle on the implementation (direct scan, info-only vs full)',
-    note='The message-level theorem "info-only sections = full-decode sections 0-3" is proved only in pieces (layout identity before '
-         'the data section, cut at the template data, data-reader independence, opaque skip: `_partial`); the end-to-end equality is '
-         'carried by the correspondence check and the oracle. The empty expression and expressions with two dots raise '
+    note='The message-level theorems are proved for every well-formed layout family and every prefix-determined data reader: '
+         '`C17_info_eq_full_prefix` (a successful full decode implies a successful metadata-only decode whose sections are the '
+         'full ones up to the data section, that section cut before the template data; no data; serialized bytes a prefix) and '
+         '`C17_info_ignores_data_content` (the skipped extent of the data section is opaque; the data reader is never run). '
+         'The empty expression and expressions with two dots raise '
          'non-library exceptions (IndexError / ValueError) and are outside the property; only the error family is compared there. '
          'Python int() also accepts non-ASCII digits; the model covers ASCII.')
 
